@@ -261,7 +261,7 @@ def _get_isolated_case(prev_j, prev_l):
 _iso_contracts = []
 for pj, pl in (((), ()), (("J1",), ("L1", "L2")), (("J0", "J1"), ("L0", "L1", "L2"))):
     case, log = _get_isolated_case(pj, pl)
-    _iso_contracts.append(Contract("wntr.sim.core:WNTRSimulator._get_isolated_junctions_and_links", P, [case], models=_iso_models(log),
+    _iso_contracts.append(Contract("wntr.sim.core:WNTRSimulator._get_isolated_junctions_and_links", P + ["C01", "C10"], [case], models=_iso_models(log),
                                    note="two junctions + a source, parallel links; every outcome of the search (4) x three previous states",
                                    trusted=["C++ check_for_isolated_junctions (bounded stand-in C09.end_to_end)",
                                             "RegInv (C14): get_links_for_node lists the links at the junction"]))
@@ -330,7 +330,7 @@ CONTRACTS = [
              trusted=["scipy.sparse.csr_matrix / numpy executed natively on concrete data (not modelled)",
                       "RegInv (C14): typed iterators and get_links_for_node enumerate the registered links"]),
 ] + _iso_contracts + [
-    Contract("wntr.sim.hydraulics:update_model_for_isolated_junctions_and_links", P, _um_cases),
+    Contract("wntr.sim.hydraulics:update_model_for_isolated_junctions_and_links", P + ["C01", "C10"], _um_cases),
 ]
 
 NSH = 8
